@@ -75,7 +75,7 @@ def run_contract(contract: dict, inputs: dict, fn=None):
             posts = contract.get('ensures_concrete', contract.get('ensures', []))
     except Exception as e:
         raised = type(e).__name__
-        allowed = contract.get('raises', {})
+        allowed = contract.get('raises_concrete', contract.get('raises', {}))
         ok = False
         for name, cnd in allowed.items():
             if name == raised or any(c.__name__ == name for c in type(e).__mro__):
